@@ -37,7 +37,7 @@ def run_units(units, root=None, workers=None, paths=(), env=None, progress=None)
     t0 = time.time()
     results = []
     with ctx.Pool(workers, initializer=_init, initargs=(root, list(paths), env or {})) as pool:
-        for r in pool.imap_unordered(_run, units, chunksize=1):
+        for r in pool.imap_unordered(_run, units, chunksize=(1 if len(units) < 2000 else 8)):
             results.append(r)
             if progress is not None:
                 progress(r, len(results), len(units))
